@@ -59,6 +59,9 @@ private theorem afterLength_map_surplus_safe (lib : Lib) (late : Bool) (c : Conn
   unfold afterLength surplusLeft
   cases lib.drain <;> cases late <;> simp [Cache.safe, Conn.safe, hd] <;> simpa [Conn.safe, hd] using h
 
+private theorem afterOk_safe (fr : Framing) (c : Conn) (h : c.safe = true) : Cache.safe (afterOk fr c) = true := by
+  cases fr <;> simp [afterOk, Framing.keeps, Cache.safe, h]
+
 /-- A reply delivered in pieces, whatever its pieces: own token or an exception, nothing left that could be taken for
     an answer. -/
 private theorem deliver_spec (lib : Lib) (c : Conn) (tok : Nat) (r : Reply) (hc : c.safe = true) :
@@ -128,6 +131,14 @@ private theorem exchange_spec (lib : Lib) (c : Conn) (tok : Nat) (b : Beh) (hc :
       obtain ⟨rfl, rfl⟩ := h
       refine ⟨?_, by simp, by simp⟩
       cases lib.closeNoLen <;> simp [Cache.safe, Conn.safe, hd, hi]
+    case okBody t fr =>
+      simp only [Att.done.injEq] at h
+      obtain ⟨rfl, rfl⟩ := h
+      exact ⟨afterOk_safe fr c hc, by simp, by simp⟩
+    case badBody200 t fr =>
+      simp only [Att.done.injEq] at h
+      obtain ⟨rfl, rfl⟩ := h
+      exact ⟨afterOk_safe fr c hc, by simp, by simp⟩
     case statusLongLate code r =>
       simp only [Att.done.injEq] at h
       obtain ⟨rfl, rfl⟩ := h
@@ -399,7 +410,7 @@ theorem C19_split_extends (lib : Lib) (c : Conn) (tok : Nat) (code : ErrCode) (b
 /- ---------- recovery ---------- -/
 
 private theorem healthy_cases (b : Beh) (h : b.healthy = true) :
-    b = .okKeep ∨ b = .okClose ∨ ∃ r, b = .scripted r ∧ r.healthy = true := by
+    b = .okKeep ∨ b = .okClose ∨ (∃ t fr, b = .okBody t fr) ∨ ∃ r, b = .scripted r ∧ r.healthy = true := by
   cases b <;> simp_all [Beh.healthy]
 
 /-- A healthy exchange delivered in pieces ends like one delivered at once. -/
@@ -426,7 +437,8 @@ private theorem call_scripted_healthy (lib : Lib) (cache : Cache) (tok : Nat) (r
       simp [call, attempt, hd, hs, hp, exchange_scripted_healthy lib _ tok r h]
 
 /-- The head of a healthy script: nothing, a plain healthy exchange, or one delivered in pieces. -/
-private def basicShape (bs : List Beh) : Prop := bs = [] ∨ (∃ r, bs = .okKeep :: r) ∨ (∃ r, bs = .okClose :: r)
+private def basicShape (bs : List Beh) : Prop :=
+  bs = [] ∨ (∃ r, bs = .okKeep :: r) ∨ (∃ r, bs = .okClose :: r) ∨ (∃ t fr r, bs = .okBody t fr :: r)
 
 private theorem healthy_shape (bs : List Beh) (hh : bs.all Beh.healthy = true) :
     basicShape bs ∨ ∃ r rest, bs = .scripted r :: rest ∧ r.healthy = true := by
@@ -434,9 +446,10 @@ private theorem healthy_shape (bs : List Beh) (hh : bs.all Beh.healthy = true) :
   | nil => exact Or.inl (Or.inl rfl)
   | cons b r =>
     simp only [List.all_cons, Bool.and_eq_true] at hh
-    rcases healthy_cases b hh.1 with rfl | rfl | ⟨r', rfl, hr⟩
+    rcases healthy_cases b hh.1 with rfl | rfl | ⟨t, fr, rfl⟩ | ⟨r', rfl, hr⟩
     · exact Or.inl (Or.inr (Or.inl ⟨r, rfl⟩))
-    · exact Or.inl (Or.inr (Or.inr ⟨r, rfl⟩))
+    · exact Or.inl (Or.inr (Or.inr (Or.inl ⟨r, rfl⟩)))
+    · exact Or.inl (Or.inr (Or.inr (Or.inr ⟨t, fr, r, rfl⟩)))
     · exact Or.inr ⟨r', r, rfl, hr⟩
 
 private theorem healthy_stays_basic (lib : Lib) (cache : Cache) (tok : Nat) (bs : List Beh)
@@ -444,12 +457,16 @@ private theorem healthy_stays_basic (lib : Lib) (cache : Cache) (tok : Nat) (bs 
     (call lib cache tok bs).1 = .result tok ∧ Cache.good (call lib cache tok bs).2 = true := by
   cases cache with
   | none =>
-    rcases hh with rfl | ⟨r, rfl⟩ | ⟨r, rfl⟩ <;> simp [call, attempt, exchange, Cache.good]
+    rcases hh with rfl | ⟨r, rfl⟩ | ⟨r, rfl⟩ | ⟨t, fr, r, rfl⟩ <;> simp [call, attempt, exchange, Cache.good]
+    cases fr <;> simp [afterOk, Framing.keeps]
   | some c =>
     simp only [Cache.good, Bool.and_eq_true, Bool.not_eq_true', List.isEmpty_iff] at hg
     obtain ⟨⟨hd, hi⟩, hp⟩ := hg
-    rcases hh with rfl | ⟨r, rfl⟩ | ⟨r, rfl⟩ <;>
-      cases hs : c.stale <;> simp [call, attempt, exchange, Cache.good, hd, hi, hp, hs]
+    rcases hh with rfl | ⟨r, rfl⟩ | ⟨r, rfl⟩ | ⟨t, fr, r, rfl⟩
+    case inr.inr.inr =>
+      cases hs : c.stale <;> cases fr <;>
+        simp [call, attempt, exchange, Cache.good, afterOk, Framing.keeps, hd, hi, hp, hs]
+    all_goals cases hs : c.stale <;> simp [call, attempt, exchange, Cache.good, hd, hi, hp, hs]
 
 /-- From a connection state with nothing unread, a healthy exchange (delivered at once or in pieces) succeeds with its
     own result and leaves such a state. -/
@@ -466,7 +483,11 @@ private theorem first_after_faults_basic (lib : Lib) (c : Conn) (tok : Nat) (bs 
     ((call lib (some c) tok bs).1 = .result tok ∨ ∃ k, (call lib (some c) tok bs).1 = .other k) ∧
     Cache.good (call lib (some c) tok bs).2 = true := by
   obtain ⟨hd, hi⟩ := safe_parts c hc
-  rcases hh with rfl | ⟨r, rfl⟩ | ⟨r, rfl⟩ <;>
+  rcases hh with rfl | ⟨r, rfl⟩ | ⟨r, rfl⟩ | ⟨t, fr, r, rfl⟩
+  case inr.inr.inr =>
+    cases hs : c.stale <;> cases hp : c.pending <;> cases fr <;> rcases hi with hi | ⟨rest, hi⟩ <;>
+      simp [call, attempt, exchange, Cache.good, afterOk, Framing.keeps, hd, hs, hp, hi]
+  all_goals
     cases hs : c.stale <;> cases hp : c.pending <;> rcases hi with hi | ⟨rest, hi⟩ <;>
       simp [call, attempt, exchange, Cache.good, hd, hs, hp, hi]
 
@@ -701,7 +722,62 @@ theorem C19_error_body_recovery (code : ErrCode) (body : Body) (len : Bool) :
       [.transportError code.n, .other "http-state", .result 2] := by
   cases len <;> simp [session, call, attempt, exchange, afterLength]
 
+/- ---------- what the body of a 200 reply holds ---------- -/
+
+/-- A HEALTHY reply returns the call's own result WHATEVER ITS JSON TEXT LOOKS LIKE — 7-bit only, raw multi-byte UTF-8
+    (its length in bytes differs from its length in characters), `\u` escapes, both, indented, tens of KiB read in many
+    pieces, gzip-coded — and however it is framed (Content-Length, no length and a close, chunked, `Connection: close`):
+    on a new connection and on every cached one with nothing unread; and it leaves such a state. -/
+theorem C19_ok_body_own_result (lib : Lib) (cache : Cache) (tok : Nat) (rest : List Beh) (hg : Cache.good cache = true)
+    (t : OkText) (fr : Framing) :
+    (call lib cache tok (.okBody t fr :: rest)).1 = .result tok ∧
+    Cache.good (call lib cache tok (.okBody t fr :: rest)).2 = true :=
+  healthy_stays_basic lib cache tok _ hg (Or.inr (Or.inr (Or.inr ⟨t, fr, rest, rfl⟩)))
+
+/-- The spelling, size and content coding of a healthy reply are irrelevant: the exchange is the one with a 7-bit
+    document in the same framing; framed by a Content-Length it is the plain healthy keep-alive exchange. -/
+theorem C19_ok_body_irrelevant (lib : Lib) (c : Conn) (tok : Nat) (t : OkText) (fr : Framing) :
+    exchange lib c tok (.okBody t fr) = exchange lib c tok (.okBody .ascii fr) ∧
+    exchange lib c tok (.okBody t .length) = exchange lib c tok .okKeep := by
+  unfold exchange
+  constructor <;> split <;> simp [afterOk, Framing.keeps]
+
+/-- A 200 reply whose body is not JSON text — an HTML page, a document in ISO-8859-1, a character cut in half, a lone
+    continuation byte, an over-long encoding, arbitrary bytes, undeclared gzip, bytes behind the document — in every
+    framing: the call RAISES (`ValueError` family); it never returns a value.  Nothing unread is left. -/
+theorem C19_bad_body_raises (lib : Lib) (cache : Cache) (tok : Nat) (rest : List Beh) (hg : Cache.good cache = true)
+    (t : BadText) (fr : Framing) :
+    (call lib cache tok (.badBody200 t fr :: rest)).1 = .other "decode" ∧
+    (∀ v, (call lib cache tok (.badBody200 t fr :: rest)).1 ≠ .result v) ∧
+    Cache.good (call lib cache tok (.badBody200 t fr :: rest)).2 = true := by
+  cases cache with
+  | none => cases fr <;> simp [call, attempt, exchange, Cache.good, afterOk, Framing.keeps]
+  | some c =>
+    simp only [Cache.good, Bool.and_eq_true, Bool.not_eq_true', List.isEmpty_iff] at hg
+    obtain ⟨⟨hd, hi⟩, hp⟩ := hg
+    cases hs : c.stale <;> cases fr <;>
+      simp [call, attempt, exchange, Cache.good, afterOk, Framing.keeps, hd, hi, hp, hs]
+
+/-- … and the calls after it succeed at once, whatever their (healthy) replies look like. -/
+theorem C19_bad_body_recovery (lib : Lib) (t : BadText) (fr fr1 fr2 : Framing) (t1 t2 : OkText) :
+    (session lib none 0 [[.badBody200 t fr], [.okBody t1 fr1], [.okBody t2 fr2]]).1 =
+      [.other "decode", .result 1, .result 2] := by
+  cases fr <;> cases fr1 <;> simp [session, call, attempt, exchange, afterOk, Framing.keeps]
+
+/-- The alphabet's `non-JSON 200` is one of them. -/
+theorem C19_bad_body_extends (lib : Lib) (c : Conn) (tok : Nat) :
+    exchange lib c tok .nonJson200 = exchange lib c tok (.badBody200 .html .length) := by
+  unfold exchange
+  split <;> simp [afterOk, Framing.keeps]
+
 /- Non-vacuity -/
+example : (session ⟨true, false⟩ none 0 [[.okBody .rawUtf8 .length], [.status ⟨500, by decide⟩ true .text], [.okBody .huge .chunked],
+      [.badBody200 .latin1 .length], [.okBody .gzip .noLength], [.badBody200 .cutChar .lengthClose], [.okBody .mixed .lengthClose], []]).1 =
+    [.result 0, .transportError 500, .result 2, .other "decode", .result 4, .other "decode", .result 6, .result 7] := by decide
+example : ([[Beh.okBody .rawUtf8 .length], [.okBody .gzip .chunked, .okBody .escaped .noLength]] : List (List Beh)).all
+    (fun bs => bs.all Beh.healthy) = true := by decide
+example : ([[Beh.badBody200 .latin1 .length], [.badBody200 .gzipBare .chunked]] : List (List Beh)).all
+    (fun bs => bs.all Beh.framed) = true := by decide
 example : (session ⟨true, false⟩ none 0 [[.okKeep], [.status ⟨503, by decide⟩ true .latin1], [], [.statusChunked ⟨502, by decide⟩ .gzipDeclared],
       [], [.statusLenClose ⟨500, by decide⟩ .binary], []]).1 =
     [.result 0, .transportError 503, .result 2, .transportError 502, .other "http-state", .transportError 500, .result 6] := by decide
